@@ -14,7 +14,7 @@ structure GateOk (g : Cfg) (task : TS) (re : Nat) (closed overlap : Bool) : Prop
   re2 : re ≤ 2
   osRe : g.mode = .os → re = 0
   sync : g.isAsync = false → task = .none ∧ re = 0
-  noClosedAns : task ≠ .rd .closed
+  noClosedAns : ∀ h, task ≠ .rd .closed h
   alive : g.mode = .et → closed = false → (task = .none ↔ re = 0)
   noOverlap : overlap = false
 
@@ -29,7 +29,7 @@ def owes (g : Cfg) (ps : PS) (task : TS) (re : Nat) : Prop :=
   (∃ i fl, ps = .rd i fl) ∨
   (∃ fl, ps = .fin fl ∧ (fl.hang = true ∨ (g.mode = .os ∧ g.isAsync = false ∧ fl.inn = true))) ∨
   task = .queued ∨ (∃ v, task = .dec v) ∨
-  (∃ a, task = .rd a ∧ (g.mode = .os ∨ a.again g = true ∨ re ≥ 2))
+  (∃ a h, task = .rd a h ∧ (g.mode = .os ∨ a.again g = true ∨ re ≥ 2 ∨ h = true))
 
 structure LostOk (g : Cfg) (armed edge : Bool) (q : Nat) (ps : PS) (task : TS) (re : Nat) (closed : Bool) : Prop where
   osArmed : g.mode = .os → armed = true → task = .none
@@ -37,11 +37,22 @@ structure LostOk (g : Cfg) (armed edge : Bool) (q : Nat) (ps : PS) (task : TS) (
   osEdge : g.mode = .os → armed = true → q > 0 → edge = true
   nolostET : g.mode = .et → q > 0 → closed = false → edge = true ∨ owes g ps task re
 
+/-- the hang-up flag handed to the read task: only in asynchronous configurations, backed by the kernel state,
+    seen by a round only if it is set, and — as long as the conn is open — a task is alive that will either close
+    at the end of its round (`h`) or go round again (`re ≥ 2`, queued, after its decrement) -/
+structure HupOk (g : Cfg) (hup eof rerr : Bool) (task : TS) (re : Nat) (closed : Bool) : Prop where
+  sync : g.isAsync = false → hup = false
+  backed : hup = true → eof = true ∨ rerr = true
+  flag : ∀ a, task = .rd a true → hup = true
+  owed : hup = true → closed = false →
+    task = .queued ∨ (∃ v, task = .dec v) ∨ (∃ a h, task = .rd a h ∧ (h = true ∨ re ≥ 2))
+
 structure Core (g : Cfg) (s : St) : Prop where
   kind : KindOk g s.k.reg s.k.rq s.k.dq
   gate : GateOk g s.task s.re s.closed s.overlap
   psok : PsOk g s.ps
   lost : LostOk g s.k.armed s.k.edge s.k.qlen s.ps s.task s.re s.closed
+  hupok : HupOk g s.hup s.k.eof s.k.rerr s.task s.re s.closed
 
 /-- readiness that the kernel will (re-)report under the mode's semantics -/
 def willReport (g : Cfg) (s : St) : Prop :=
@@ -51,7 +62,7 @@ def willReport (g : Cfg) (s : St) : Prop :=
   | .os => s.k.armed = true ∧ s.k.edge = true
 
 theorem core_init (g : Cfg) : Core g init := by
-  refine ⟨⟨?_, ?_, ?_⟩, ⟨?_, ?_, ?_, ?_, ?_, ?_⟩, ⟨?_, ?_, ?_, ?_⟩, ⟨?_, ?_, ?_, ?_⟩⟩ <;> simp [init, K.qlen]
+  refine ⟨⟨?_, ?_, ?_⟩, ⟨?_, ?_, ?_, ?_, ?_, ?_⟩, ⟨?_, ?_, ?_, ?_⟩, ⟨?_, ?_, ?_, ?_⟩, ⟨?_, ?_, ?_, ?_⟩⟩ <;> simp [init, K.qlen]
 
 /-- an arrival (edge set, queue possibly longer) keeps `LostOk` -/
 theorem lost_arrive (g : Cfg) (armed edge : Bool) (q q' : Nat) (ps : PS) (task : TS) (re : Nat) (closed : Bool)
@@ -61,7 +72,7 @@ theorem lost_arrive (g : Cfg) (armed edge : Bool) (q q' : Nat) (ps : PS) (task :
 /-- environment actions -/
 theorem core_env (g : Cfg) (s s' : St) (a : Act) (ha : a.internal = false) (hr : ∀ i o, a ≠ .report i o)
     (h : Core g s) (hs : step g s a = some s') : Core g s' := by
-  obtain ⟨hk, hg, hp, hl⟩ := h
+  obtain ⟨hk, hg, hp, hl, hh⟩ := h
   cases a with
   | pstep => simp [Act.internal] at ha
   | tstep => simp [Act.internal] at ha
@@ -73,28 +84,28 @@ theorem core_env (g : Cfg) (s s' : St) (a : Act) (ha : a.internal = false) (hr :
     · next hc =>
       cases hs
       simp only [Bool.or_eq_true, not_or, Bool.not_eq_true] at hc
-      exact ⟨⟨hk.reg, hk.kindS, fun hu => by simp_all⟩, hg, hp, lost_arrive g _ _ _ _ _ _ _ _ hl⟩
+      exact ⟨⟨hk.reg, hk.kindS, fun hu => by simp_all⟩, hg, hp, lost_arrive g _ _ _ _ _ _ _ _ hl, hh⟩
   | dgram a b =>
     simp only [step] at hs
     split at hs
     · cases hs
     · next hc =>
       cases hs
-      exact ⟨⟨hk.reg, fun hu => by simp_all, hk.kindD⟩, hg, hp, lost_arrive g _ _ _ _ _ _ _ _ hl⟩
+      exact ⟨⟨hk.reg, fun hu => by simp_all, hk.kindD⟩, hg, hp, lost_arrive g _ _ _ _ _ _ _ _ hl, hh⟩
   | eof =>
     simp only [step] at hs
     split at hs
     · cases hs
     · cases hs
-      exact ⟨hk, hg, hp, lost_arrive g _ _ _ _ _ _ _ _ hl⟩
+      exact ⟨hk, hg, hp, lost_arrive g _ _ _ _ _ _ _ _ hl, ⟨hh.sync, fun _ => Or.inl rfl, hh.flag, hh.owed⟩⟩
   | rderr =>
     simp only [step] at hs
     cases hs
-    exact ⟨hk, hg, hp, lost_arrive g _ _ _ _ _ _ _ _ hl⟩
+    exact ⟨hk, hg, hp, lost_arrive g _ _ _ _ _ _ _ _ hl, ⟨hh.sync, fun _ => Or.inr rfl, hh.flag, hh.owed⟩⟩
   | intr n =>
     simp only [step] at hs
     cases hs
-    exact ⟨hk, hg, hp, hl⟩
+    exact ⟨hk, hg, hp, hl, hh⟩
   | stale =>
     simp only [step] at hs
     split at hs
@@ -104,7 +115,7 @@ theorem core_env (g : Cfg) (s s' : St) (a : Act) (ha : a.internal = false) (hr :
       have hq : s.k.qlen = 0 := by
         simp only [K.readable, Bool.or_eq_true, decide_eq_true_eq, not_or] at hrd
         omega
-      refine ⟨hk, hg, hp, ⟨hl.osArmed, hl.osBusy, ?_, ?_⟩⟩
+      refine ⟨hk, hg, hp, ⟨hl.osArmed, hl.osBusy, ?_, ?_⟩, hh⟩
       · intro _ _ hq'; simp only [K.qlen] at hq hq'; omega
       · intro _ hq' _; simp only [K.qlen] at hq hq'; omega
 
